@@ -2,6 +2,10 @@
 
 package main
 
+import "sync/atomic"
+
 const hooksOn = false
 
 func setYield(seed uint64) {}
+
+func stallRotations(stop *atomic.Bool) {}
